@@ -6,6 +6,7 @@
      2  the property holds on this case but the model rt_pkg P is not P'  (tie broken)
      3  a specification function disagrees with the Python oracle (names stream) *)
 Require Import Hdl21.Base.PyInt Hdl21.Base.Design Hdl21.Base.Package Hdl21.Base.Dec Hdl21.Model.C11RoundTrip Hdl21.Corr.C03.
+Require Import Hdl21.Model.C11Share.
 From Coq Require Import String.
 Open Scope string_scope.
 Open Scope Z_scope.
@@ -47,3 +48,20 @@ Definition name_case := (string * list string * string)%type.
 Definition chk_name (c : name_case) : Z :=
   let '(s, parts, joined) := c in
   if list_eqb String.eqb (split_dot s) parts && String.eqb (join_dot parts) joined then 0 else 3.
+
+(* pyeq (spec validation of Model/C11Share.v:py_eq): two package values and what the live Python said of `x == y` for the
+   values the live importer made of them (0 False, 1 True, 2 raised).  Code 3: the model decides otherwise.
+   Code 9 marks the pairs the model leaves open (None / a value it does not import), so that the harness can report how
+   many pairs were decided; it is not a failure. *)
+Definition pyeq_case := (pvalue * pvalue * Z)%type.
+Definition pyeq_model (a b : pvalue) : option bool :=
+  match import_value a, import_value b with
+  | Ok x, Ok y => py_eq x y
+  | _, _ => None
+  end.
+Definition chk_pyeq (c : pyeq_case) : Z :=
+  let '(a, b, live) := c in
+  match pyeq_model a b with
+  | Some r => if (if r then 1 else 0) =? live then 0 else 3
+  | None => 9
+  end.
